@@ -123,6 +123,9 @@ func (sc *Scope) eval(e *Expr) (tv, error) {
 		if v, ok := sc.vars[e.Name]; ok {
 			return v, nil
 		}
+		if a, ok := vc.freeCells[e.Name]; ok && sc.depth == 0 {
+			return tv{vc.load(sc.cur, a), a.typ}, nil
+		}
 		for i, n := range sc.resultNames {
 			if n == e.Name && n != "" && i < len(sc.results) {
 				return sc.results[i], nil
